@@ -15,8 +15,8 @@ from mc import core
 
 LEVEL = 'model_checking'
 RULE = ('every digraph in the bound (edge set incl. self-loops and back edges) x every comb/seq kind assignment x every '
-        'instantiation order (n!) x placement (flat / split over two structural children / late addition after a first '
-        'getSimulator() / split with the same leaf names in both children / Simulator(hw) instantiated directly on a system that already has its simulator / class-identity variants for n <= 2: behaviour added by a subclass of an instantiated port-only class, a '
+        'instantiation order (n!) x placement (flat / split over two structural children / late addition after a first getSimulator(), at the top level or inside structural children that already existed / '
+        'split with the same leaf names in both children / Simulator(hw) instantiated directly on a system that already has its simulator / class-identity variants for n <= 2: behaviour added by a subclass of an instantiated port-only class, a '
         'structural class with the short name of the primitive); kinds c (comb), s (register), m (Mealy leaf with clock() and propagate()); for accepted netlists BFS over register states x all 2^n input vectors with a plain-Python '
         'netlist evaluator as reference, topological-order and fixpoint checks in every state; netlists with a '
         'combinational cycle must be refused. non-trivial = input vector on which some node output is 1')
@@ -25,7 +25,7 @@ ASSUMPTIONS = ['harness-defined propagatable/clockable Logic subclasses (XNOR of
                'reference evaluator in this file is trusted']
 BOUNDS = {
     'quick': 'all digraphs on <=3 nodes (all 2^(n^2) edge sets) with every comb/seq assignment, all orders; all placements for n<=2, '
-             'flat + 3 hierarchy splits + 1 late-addition for n=3; n=4: all 64 DAGs + every single back-edge/self-loop extension, comb-only, flat',
+             'flat + 3 hierarchy splits + 1 late-addition + 1 late addition inside existing structural children for n=3; chains of 48..100 blocks in 5 awkward orders; input-less combinational sources (3 kinds x 2 orders x all value/clk(0)/clk(1) sequences <= 3); n=4: all 64 DAGs + every single back-edge/self-loop extension, comb-only, flat',
     'thorough': 'quick with all placements at n=3 + n=4 DAG(+1 edge) with 4 kind assignments (comb, register first, register last, all registers), flat + one '
                 'hierarchy split + one late addition; n=5: all 1024 DAGs comb-only x 120 orders, and the first 128 DAGs + one back edge/self-loop',
 }
